@@ -353,6 +353,17 @@ func (g *GProg) Render(rename map[string]string, order []int, style int) string 
 		p.line(")")
 		p.line("")
 	}
+	// keep every import used even when the function that needed it is removed or replaced
+	use := map[string]string{"strings": "strings.ToUpper", "strconv": "strconv.Itoa", "fmt": "fmt.Sprintf", "net": "net.Dial",
+		"time": "time.Now", "os": "os.Getenv", "os/exec": "exec.Command"}
+	for _, i := range g.Imports {
+		if u, ok := use[i]; ok {
+			p.line("var _ = " + u)
+		}
+	}
+	if len(g.Imports) > 0 {
+		p.line("")
+	}
 	for _, t := range g.Types {
 		p.line(t)
 		p.line("")
